@@ -260,6 +260,18 @@ theorem cseSkip_false {limit : Nat} {op : OpId} {attrs : List (String × AttrDat
   simp only [cseSkip, Bool.or_eq_false_iff, Bool.not_eq_false'] at h
   exact List.isEmpty_iff.1 h.1.1
 
+theorem cseSkip_false_stochastic {limit : Nat} {op : OpId} {attrs : List (String × AttrData)}
+    {bodies : List Graph} (h : cseSkip limit op attrs bodies = false) : isStochasticOp op = false := by
+  simp only [cseSkip, Bool.or_eq_false_iff] at h
+  have := h.2
+  simpa [isNonDeterministicOp, isStochasticOp] using this
+
+/-- the node tag only matters for stochastic operators -/
+theorem nodeResults_tag (I : Interp Val) (op : OpId) (attrs : List (String × AttrData)) (o1 o2 : List VId)
+    (bodies : List (BodyFn Val)) (args : List (Option Val)) (h : isStochasticOp op = false) :
+    nodeResults I op attrs o1 bodies args = nodeResults I op attrs o2 bodies args := by
+  simp [nodeResults, h]
+
 theorem cseNodes_sound (I : Interp Val) (limit : Nat) (gins : List VId) :
     ∀ (ns tbl : List Node) (σ : Subst) (outs outs0 : List VId) (ρ ρ' : Env Val),
     RelOn PT σ ρ ρ' → SubstOK σ (defsNodes ns) →
@@ -325,6 +337,7 @@ theorem cseNodes_sound (I : Interp Val) (limit : Nat) (gins : List VId) :
       exact cseNodes_sound I limit gins ns tbl σ outs outs0 _ _ hstep hokn hsn hc.2 hfn keepTbl keepOut
     · rename_i hskip
       have hbodies : bodies = [] := cseSkip_false (by simpa using hskip)
+      have hst : isStochasticOp op = false := cseSkip_false_stochastic (by simpa using hskip)
       subst hbodies
       split
       · -- found in the dictionary
@@ -377,7 +390,7 @@ theorem cseNodes_sound (I : Interp Val) (limit : Nat) (gins : List VId) :
                 obtain ⟨hlt, heq⟩ := List.getElem?_eq_some_iff.1 hz2
                 rw [← heq]
                 exact hnd1.idxOf_getElem _ hlt
-              rw [hidx]
+              rw [hidx, nodeResults_tag I _ _ nouts outs1 _ _ hst]
           | none =>
             simp only
             have hv : v ∉ nouts := fun h => by
